@@ -928,6 +928,8 @@ add("C07", "revert: DuckDB cuts the closing parenthesis of a function rendered w
     '        this = self.sql(expression.this, comment=False).rstrip(")")\n', '        this = self.sql(expression, "this").rstrip(")")\n', "C07.h")
 add("C07", "benign: DuckDB cuts the closing parenthesis with a slice", "sqlglot/generators/duckdb.py",
     '        this = self.sql(expression.this, comment=False).rstrip(")")\n', '        this = self.sql(expression.this, comment=False)[:-1]\n', "silent")
+add("C07", "revert: MAKE_INTERVAL's string laid out by the pretty printer", "sqlglot/dialects/dialect.py",
+    "    return f\"INTERVAL '{sep.join(args)}'\"\n", "    return f\"INTERVAL '{self.format_args(*args, sep=sep)}'\"\n", "C07.g")
 add("C07", "revert: format_time renders the format with its comments", "sqlglot/generator.py",
     '            self.sql(expression.args.get("format"), comment=False),\n', '            self.sql(expression, "format"),\n', "C07.g")
 add("C07", "log base tested on its rendered text", "sqlglot/generator.py",
